@@ -917,13 +917,18 @@ pub fn string_char_code_at(
     args: &[JsValue],
 ) -> Result<Guarded, JsError> {
     let s = interp.to_js_string(&this);
-    let index = if let Some(v) = args.first() {
-        interp.coerce_to_number(v)? as usize
+    // ToIntegerOrInfinity: NaN is 0, fractions truncate; a negative position is out of range
+    let position = if let Some(v) = args.first() {
+        let n = interp.coerce_to_number(v)?;
+        if n.is_nan() { 0.0 } else { n.trunc() }
     } else {
-        0
+        0.0
     };
+    if position < 0.0 {
+        return Ok(Guarded::unguarded(JsValue::Number(f64::NAN)));
+    }
 
-    if let Some(ch) = s.as_str().chars().nth(index) {
+    if let Some(ch) = s.as_str().chars().nth(position as usize) {
         Ok(Guarded::unguarded(JsValue::Number(ch as u32 as f64)))
     } else {
         Ok(Guarded::unguarded(JsValue::Number(f64::NAN)))
@@ -1009,10 +1014,12 @@ pub fn string_code_point_at(
     args: &[JsValue],
 ) -> Result<Guarded, JsError> {
     let s = interp.to_js_string(&this);
+    // ToIntegerOrInfinity: NaN is 0, fractions truncate
     let index = args.first().map(|v| v.to_number()).unwrap_or(0.0);
+    let index = if index.is_nan() { 0.0 } else { index.trunc() };
 
-    // Check for negative or non-integer index
-    if index < 0.0 || math::fract(index) != 0.0 {
+    // A negative position is out of range
+    if index < 0.0 {
         return Ok(Guarded::unguarded(JsValue::Undefined));
     }
 
